@@ -163,13 +163,14 @@ class CoqRunner:
             f.write(body)
         return path
 
-    def run_cases(self, tag, requires, cases):
+    def run_cases(self, tag, requires, cases, shard=None):
         """cases: list of Coq terms of type bool. Returns (failing indices, error text or None)."""
         if not cases:
             return [], None
         files = []
-        for si in range(0, len(cases), self.shard):
-            chunk = cases[si:si + self.shard]
+        shard = shard or self.shard
+        for si in range(0, len(cases), shard):
+            chunk = cases[si:si + shard]
             self.counter += 1
             name = 'cases_%s_%d' % (re.sub(r'\W', '_', tag), self.counter)
             body = 'Definition cases : list bool := [\n' + ';\n'.join(chunk) + '\n].\n'
